@@ -1,6 +1,7 @@
 package main
 
 import (
+	"errors"
 	"flag"
 	"fmt"
 	"os"
@@ -28,7 +29,12 @@ func main() {
 	}
 
 	if err := fs.Parse(os.Args[1:]); err != nil {
-		panic(err)
+		// The flag set has already printed the problem and the usage.
+		if errors.Is(err, flag.ErrHelp) {
+			os.Exit(0)
+		}
+
+		os.Exit(2)
 	}
 
 	// Update the verbosity level.
